@@ -438,16 +438,19 @@ def decNumStreams (s : Streams) (id : Nat) : Streams :=
 /-- `Counts::transition_after(stream, is_reset_counted)` -/
 def transitionAfter (s : Streams) (id : Nat) (isResetCounted : Bool) : Streams :=
   let st := s.stream id
+  -- the stream left the reset expiration queue during this transition (closed yet or not)
+  let s :=
+    if isResetCounted && !st.isPendingResetExpiration then
+      s.modCountsA "self.num_local_reset_streams > 0" Counts.decNumResetStreams
+    else s
   let s :=
     if st.isClosed then
-      let s :=
-        if !st.isPendingResetExpiration then
-          let s := { s with store := s.store.unlink st.id }
-          if isResetCounted then s.modCountsA "self.num_local_reset_streams > 0" Counts.decNumResetStreams else s
-        else s
+      let s := if !st.isPendingResetExpiration then { s with store := s.store.unlink st.id } else s
       if !st.state.isScheduledReset && st.isCounted then s.decNumStreams id else s
     else s
   if (s.stream id).isReleased then
+    -- a stream that is forgotten does not keep its concurrency slot
+    let s := if (s.stream id).isCounted then s.decNumStreams id else s
     { s with store := s.store.remove id, recvBufferLeaked := s.recvBufferLeaked + (s.stream id).pendingRecv.length }
   else s
 
